@@ -9,6 +9,27 @@ from .pymini import Unsupported
 CMP_OPS = ["==", "!=", "<=", ">=", "::"]
 
 
+def spec_colon(code: str):
+    depth, quote, i = 0, None, 0
+    while i < len(code):
+        ch = code[i]
+        if quote:
+            if ch == "\\":
+                i += 1
+            elif ch == quote:
+                quote = None
+        elif ch in "\"'":
+            quote = ch
+        elif ch in "([{":
+            depth += 1
+        elif ch in ")]}":
+            depth -= 1
+        elif ch == ":" and depth == 0:
+            return i
+        i += 1
+    return None
+
+
 class Tables:
     def __init__(self):
         self.expr, self.stmt, self.args = {}, {}, {}
@@ -19,9 +40,10 @@ class Tables:
             self.expr[code] = pymini.parse_eval(code.lstrip(" \t"))
 
     def want_display(self, code: str):
-        """An {expr} token: the engine splits a format spec at the first colon."""
-        if ":" in code and not any(op in code for op in CMP_OPS):
-            i = code.find(":")
+        """An {expr} token: the engine splits a format spec at the first colon outside brackets and string
+        literals (mirror of Engine.v spec_colon / BardEngine._split_format_spec)."""
+        i = spec_colon(code)
+        if i is not None:
             self.want_expr(code[:i].strip())
         else:
             self.want_expr(code)
